@@ -10,6 +10,7 @@ import (
 	"errors"
 	"io"
 
+	"mellium.im/xmlstream"
 	"mellium.im/xmpp/stream"
 )
 
@@ -59,7 +60,17 @@ func (r *reader) Token() (xml.Token, error) {
 		switch t.Name.Local {
 		case "error":
 			e := stream.Error{}
-			err = xml.NewTokenDecoder(r.r).DecodeElement(&e, &t)
+			// DecodeElement needs a decoder that has itself seen the start element
+			// (it panics on a fresh token decoder), so replay it before the rest
+			// of the element.
+			d := xml.NewTokenDecoder(xmlstream.MultiReader(
+				xmlstream.Token(t),
+				xmlstream.InnerElement(r.r),
+			))
+			if _, err = d.Token(); err != nil {
+				return nil, err
+			}
+			err = d.DecodeElement(&e, &t)
 			if err != nil {
 				return nil, err
 			}
